@@ -916,7 +916,7 @@ class reactive_ops:
             params = self._reactive._params
         else:
             params = resolve_ref(self._reactive)
-        trigger = Trigger(parameters=params)
+        trigger = Trigger(parameters=params, internal=True)
         if xrefs:
             def trigger_x(*args):
                 if self.value:
